@@ -65,6 +65,8 @@ def gen_dcase(rng):
         r = rng.random()
         if r < 0.5:
             p = None if rng.random() < 0.6 else mcase.gen_target(rng, doc)
+            if p is not None and rng.random() < 0.35:
+                p = mcase.odd_leaf(rng, p)      # a last step that is not a key or an index: del must raise PopError (C18-m8)
             decls.append({'name': nm, 'kind': 'attr', 'path': p, 'conv': rng.choice(['id', 'tag'])})
         elif r < 0.75 and containers:
             decls.append({'name': nm, 'kind': 'typed', 'path': loc_to_path(rng.choice(containers)), 'conv': 'id'})
